@@ -39,6 +39,8 @@ type Interp struct {
 	frozenOf map[*Cell]Term
 	dbCells  map[string]*Cell
 	pureAxDone map[string]bool
+	ghostOwner map[*Cell]*Cell // ghost map cell -> the object (pointer target) it is attached to
+	entryCellN int             // cells with a larger ID were allocated by the function under verification
 	structNamed map[*types.Struct]types.Type
 	globalInitDone map[string]bool
 	// configuration
@@ -70,6 +72,7 @@ type Frame struct {
 	ghostCells  map[string]*Cell
 	callOrds    map[*ast.CallExpr]int
 	snapshots   map[string]*State // named ghost snapshots (at call N snapshot S)
+	assertHit   map[int]bool      // call ordinals whose `at call N assert` clauses were generated
 	loopEntries map[int]*State    // state at first entry of loop N (for entry(N, e) in invariants)
 }
 
